@@ -117,6 +117,11 @@ func (j *jsonParser) Pull() (node.Node, bool, error) {
 	tok, err := j.jsonReader.Token()
 
 	if err != nil {
+		if err == io.EOF && len(j.stateStack) > 0 {
+			// The input ended inside an object or an array.
+			return nil, false, io.ErrUnexpectedEOF
+		}
+
 		return nil, false, err
 	}
 
